@@ -292,8 +292,13 @@ class ApiMergeStoreHandler(NbdimeHandler, APIHandler):
         # Somehow store unsolved conflicts?
         # conflicts = body['conflicts']
 
+        # Serialise before opening the output file: opening with 'w' truncates
+        # it, and a submission that cannot be written as a notebook must not
+        # clobber what is already there.
+        buf = io.StringIO()
+        nbformat.write(merged_nb, buf)
         with io.open(path, 'w', encoding='utf8') as f:
-            nbformat.write(merged_nb, f)
+            f.write(buf.getvalue())
         self.finish()
 
 
